@@ -86,6 +86,11 @@ func hostileOne(kind string, data []byte) (what string) {
 			return "harness: cannot create state: " + err.Error()
 		}
 		st.AddBalance(hostAddr, new(big.Int).Lsh(big.NewInt(1), 100))
+		// a validator operated by the sender, so that update/deposit/withdraw/status/settle/delegation get past the
+		// "validator not found" check when the payload names it
+		pub := crypto.CompressPubkey(&hostKey.PublicKey)
+		tok := new(big.Int).Mul(big.NewInt(1000000), big.NewInt(1000000000000000000))
+		st.CreateValidator("v", hostAddr, hostAddr, params.RoleHouse, pub, []byte{1, 2, 3}, tok, params.YOUToStake(tok), 1, 100, 100, params.ValidatorOnline)
 		yp := params.Versions[params.YouV5]
 		cfg := &vm.Config{}
 		cfg.CurrYouParams = &yp
@@ -101,12 +106,36 @@ func hostileOne(kind string, data []byte) (what string) {
 	return ""
 }
 
-func (h *H) modelBytes(name string, r *vh.RNG) []byte {
+func hostValAddr() common.Address {
+	hostInit()
+	return state.PubToAddress(crypto.CompressPubkey(&hostKey.PublicKey))
+}
+
+// substAddr replaces 20-byte strings of a value by addr (each with probability 1/2)
+func substAddr(r *vh.RNG, v *Val, addr []byte) {
+	switch v.K {
+	case 'b':
+		if len(v.B) == 20 && r.Bool() {
+			v.B = append([]byte{}, addr...)
+		}
+	case 'l':
+		for _, x := range v.L {
+			substAddr(r, x, addr)
+		}
+	case 'S':
+		substAddr(r, v.Of, addr)
+	}
+}
+
+func (h *H) modelBytes(name string, r *vh.RNG, addr ...[]byte) []byte {
 	e := h.byName[name]
 	if e == nil {
 		return nil
 	}
 	v := genVal(r, e.sch, 3)
+	for _, a := range addr {
+		substAddr(r, v, a)
+	}
 	ans := strings.Fields(h.ask("E " + name + " " + v.String()))
 	if len(ans) != 2 || ans[0] != "ok" {
 		return nil
@@ -174,7 +203,8 @@ func (h *H) hostile() {
 		if sch == "" {
 			sch = "staking.TxValidatorSettle"
 		}
-		payload, label := perturb(h.modelBytes(sch, r))
+		va := hostValAddr()
+		payload, label := perturb(h.modelBytes(sch, r, va.Bytes()))
 		data, _ := rlp.EncodeToBytes(&staking.Message{Action: staking.ActionType(act), Payload: payload})
 		if r.Chance(15) {
 			data, _ = perturb(data)
